@@ -8,7 +8,8 @@ HDR = ['bn_low.h', 'bn_api.h']
 
 
 def register(add):
-    for conf in ('w8',):
+    import os
+    for conf in (('w8', 'p128') if os.environ.get('VERIF_TRY_P128') else ('w8',)):
         register_conf(add, conf)
 
 
@@ -63,3 +64,14 @@ def register_conf(add0, CONF):
     api('bn_hlv', SHIFT, D2, 'bn_hlv(c, a)', S2, ['bn_copy', 'bn_rsh1_low', 'bn_trim'])
     api('bn_lsh', SHIFT, 'bn_st *c, *a; uint_t bits;', 'bn_lsh(c, a, bits)', S2, ['bn_grow', 'dv_lshd', 'dv_copy', 'bn_lshb_low', 'bn_trim'])
     api('bn_rsh', SHIFT, 'bn_st *c, *a; uint_t bits;', 'bn_rsh(c, a, bits)', S2, ['bn_grow', 'dv_rshd', 'dv_copy', 'bn_rshb_low', 'bn_trim'])
+
+    # multiplication with the digit product abstract (contracts/bn_mul.h)
+    MULC = 'src/bn/relic_bn_mul.c'
+    for sh, mac in S2:
+        add('bn_mul_dig.%s' % sh, ['C01', 'C08'], 'bn_mul_dig', sources=[MULC], headers=['bn_mul.h'], defines=['VC_SHAPE_bn_mul_dig=' + mac],
+            decls='bn_st *c, *a; dig_t b;', call='bn_mul_dig(c, a, b)', replace=['bn_grow', 'bn_mul1_low', 'bn_trim'], route='proof', unwind=N, conf=CONF, timeout=600,
+            bound_note=BOUND, note='digit product uninterpreted (see bn_mul.h)')
+    for sh, mac in [('none', 'VC_S3_NONE'), ('ca', 'VC_S3_CA'), ('cab', 'VC_S3_CAB')]:
+        add('bn_mul_basic.%s' % sh, ['C01', 'C08'], 'bn_mul_basic', sources=[MULC, 'src/bn/relic_bn_mem.c'], headers=['bn_mul.h'], defines=['VC_SHAPE_bn_mul_basic=' + mac],
+            decls='bn_st *c, *a, *b;', call='bn_mul_basic(c, a, b)', replace=['bn_mula_low', 'bn_trim', 'bn_copy', 'bn_zero'], route='proof', unwind=N, conf=CONF, timeout=900, flags=['--object-bits', '9'],
+            bound_note=BOUND, note='digit product uninterpreted (see bn_mul.h)')
